@@ -841,7 +841,12 @@ func (h *packetHandlerMap) ReplaceWithClosed(ids []protocol.ConnectionID, connCl
 	time.AfterFunc(expiry, func() {
 		h.mutex.Lock()
 		for _, id := range ids {
-			delete(h.handlers, id)
+			// Only remove the closed connection's own entry. With zero-length connection
+			// IDs a connection dialed in the meantime is registered under the same ID, and
+			// removing its entry would cut it off from all incoming packets.
+			if h.handlers[id] == handler {
+				delete(h.handlers, id)
+			}
 		}
 		if len(h.handlers) == 0 {
 			t := (*Transport)(h)
